@@ -47,7 +47,6 @@ type ScopeCfg struct {
 	Stats   int
 	NoGoto  bool
 	Spaced  bool // token-per-space rendering instead of conventional formatting
-	Globals []string
 }
 
 // GenScopeWS builds a workspace of valid programs with shadowing, closures and cross-file globals.
@@ -62,9 +61,21 @@ func GenScopeWS(r *Rng, sc ScopeCfg) *ScopeWS {
 	if sc.Stats == 0 {
 		sc.Stats = r.Range(3, 6)
 	}
-	globals := sc.Globals
-	if globals == nil {
-		globals = []string{"GAlpha", "GBeta", "GGamma", "GDelta", "GFunc", "GTab", "GLate", "GOnlyInner", "GNever1", "GNever2"}
+	singles := []string{"GAlpha", "GBeta", "GGamma", "GFunc", "GInner"}
+	multis := []string{"GMulti1", "GMulti2"}
+	nevers := []string{"GNever1", "GNever2"}
+	globals := append(append(append([]string{}, singles...), multis...), nevers...)
+	// each single-definition global is defined exactly once, at top level of one file
+	plans := make([][]GDef, sc.NFiles)
+	for _, n := range singles {
+		fi := r.Intn(sc.NFiles)
+		style := 0
+		if n == "GFunc" {
+			style = 1
+		} else if n == "GInner" {
+			style = 2
+		}
+		plans[fi] = append(plans[fi], GDef{n, style})
 	}
 	ws := &ScopeWS{ByRel: map[string]*SFile{}, GlobalDefs: map[string][]GSite{}, GlobalUses: map[string][]GSite{}}
 	for i := 0; i < sc.NFiles; i++ {
@@ -90,7 +101,11 @@ func GenScopeWS(r *Rng, sc ScopeCfg) *ScopeWS {
 			cfg.GlobalPool = globals
 			g := NewGen(rr, cfg)
 			g.Budget = 1200
-			g.neverWrite = map[string]bool{"GNever1": true, "GNever2": true}
+			g.neverWrite = map[string]bool{}
+			for _, n := range append(append([]string{}, singles...), nevers...) {
+				g.neverWrite[n] = true
+			}
+			g.PendingDefs = append([]GDef(nil), plans[i]...)
 			toks := g.Chunk()
 			txt := Render(rr, toks, Trivia{LineEnd: "\n", Indent: true, Pretty: !sc.Spaced})
 			pr := RParse([]byte(txt))
